@@ -95,6 +95,30 @@ def gen_cases(ctx, rng):
         cases.append({"dir": rng.choice(["upstream", "downstream"]), "chain": chain, "src": srcs[0], "srcs": srcs, "links": nl,
                       "horizon": 36000 * 1000 * L.MS, "seed": 9000 + i})
         stats["shared_by_connections"] += 1
+    # the rate changed through the API on a connection that has already carried data at the old rate (and on one established afterwards):
+    # whatever is sent once the update has returned is paced at the new rate - neither faster nor slower
+    stats["rate_updated"] = 0
+    for i in range(12 if ctx.tier == "quick" else 300):
+        R1, R2 = rng.choice([(1000, 10), (10, 1000), (50, 5), (3, 300), (100, 7)])
+        chain = [L.tx("bandwidth", name="b", rate=R1)] + ([L.tx("noop", name="q")] if i % 3 == 0 else [])
+        src, t = [], 5 * L.MS
+        for _ in range(rng.range(1, 4)):
+            n = rng.range(1, 60 * R1)
+            src.append({"at": t, "n": n})
+            t += (n // R1 + rng.range(5, 50)) * L.MS
+        U = t + rng.range(10, 200) * L.MS + 777
+        t = U + rng.range(50, 300) * L.MS
+        late = []
+        for _ in range(rng.range(2, 5)):
+            n = rng.range(1, 90 * R2)
+            late.append({"at": t, "n": n})
+            t += (n // R2 + rng.range(20, 200)) * L.MS          # the stage is idle again before the next one arrives
+        src += late
+        src.append({"at": t + 1000 * L.MS, "close": True})
+        cases.append({"dir": rng.choice(["upstream", "downstream"]), "chain": chain, "src": src, "links": 1 + i % 2,
+                      "ops": [{"at": U, "op": "update", "name": "b", "body": '{"attributes": {"rate": %d}}' % R2}],
+                      "horizon": 3600 * 1000 * L.MS, "seed": 9000 + i, "rate_updated": {"at": U, "rate": R2}})
+        stats["rate_updated"] += 1
     return cases, stats
 
 
@@ -103,6 +127,24 @@ def oracle(case, res):
         return "the process crashed: " + (res or {}).get("crash", "")[-300:]
     bws = [t for t in case["chain"] if t["type"] == "bandwidth"]
     if not bws:
+        return None
+    if case.get("rate_updated"):
+        ru = case["rate_updated"]
+        sent = sum(e.get("n", 0) for e in case["src"])
+        if not res["prefix_ok"] or res["total"] != sent:
+            return "content/order changed or bytes missing (%d of %d)" % (res["total"], sent)
+        writes = [e for e in case["src"] if not e.get("close")]
+        ws = res["writes"] or []
+        if len(ws) != len(writes):
+            return None
+        for e, w in zip(writes, ws):
+            if e["at"] <= ru["at"] or w["n"] != e["n"]:
+                continue
+            want = e["n"] * 1000000 // ru["rate"]          # ns, each chunk arrives at an idle stage and fits one instalment
+            took = w["t"] - e["at"]
+            if took < want - 1000 or took > want + 2 * L.MS:
+                return ("the rate was updated to %d KB/s at %d ns; %d bytes sent at %d ns to the then idle stage were forwarded after %d ns, at the new rate "
+                        "they take %d ns (the old rate is still in effect)" % (ru["rate"], ru["at"], e["n"], e["at"], took, want))
         return None
     R = bws[0]["attributes"]["rate"]
     sent = sum(e.get("n", 0) for e in case["src"])
